@@ -384,7 +384,9 @@ def s6_local(ctx, rep):
     that completes a line which was read while still open would fall between two increments"""
     from ..engine import deref
     P = ctx.P
-    f = P.method("LocalBackend", "_all_trial_results")
+    from .common import body_owner
+    f = body_owner(ctx, P.method("LocalBackend", "_all_trial_results"),
+                   lambda m: any(isinstance(x, ast.Call) and fn_name(x) == "retrieve" for x in walk_shallow(m.node)))
     calls = [x for x in walk_shallow(f.node) if isinstance(x, ast.Call) and fn_name(x) == "retrieve"]
     if len(calls) != 1:
         raise AnchorError("LocalBackend._all_trial_results: call of retrieve(...) not found exactly once")
